@@ -1,3 +1,3 @@
 Require Import ExtrOcamlBasic.
-From Eupsv Require Import Base.Base Model.Lock.
-Extraction "model.ml" keep_types trace_view.
+From Eupsv Require Import Base.Base Model.Lock Model.LockName.
+Extraction "model.ml" keep_types trace_view ntrace_view.
